@@ -135,3 +135,9 @@ func verifRunNative(h func()) (failures []string, panicked interface{}) {
 	h()
 	return verifFailures, nil
 }
+
+func verifTick(i int) bool          { return false }
+func verifNumTickers() int          { return 0 }
+func verifTickerName(i int) string  { return "" }
+func verifClockSymbolic()           {}
+func verifClockSet(sec int64)       {}
